@@ -146,7 +146,7 @@ Qed.
 Lemma count_valid_sum : forall b n, 0 < cap b -> newest b = Some n ->
   count_valid b = cap b - Z.max 0 (sum_missing (n - cap b + 1) (gaps b)).
 Proof.
-  intros b n Hc Hn. unfold count_valid. rewrite Hn. unfold oldest_bound, wrap.
+  intros b n Hc Hn. unfold count_valid. rewrite Hn. unfold oldest_bound. rewrite !wrap_mod.
   fold (sum_missing (n - cap b + 1) (gaps b)).
   destruct (mod_pos (cap b) n Hc) as [[E1 E2]|[E1 E2]]; rewrite E2.
   - destruct (n mod cap b <? 0) eqn:E; lia.
@@ -366,7 +366,7 @@ Qed.
 Lemma to_idx_in : forall b n k, newest b = Some n -> n - cap b + 1 <= k <= n + 1 ->
   to_idx b k = Some (k mod cap b).
 Proof.
-  intros b n k Hn Hk. unfold to_idx, oldest_bound, wrap. rewrite Hn.
+  intros b n k Hn Hk. unfold to_idx, oldest_bound. rewrite wrap_mod, Hn.
   destruct ((n + 1 <? k) || (k <? n - cap b + 1)) eqn:E; [lia|reflexivity].
 Qed.
 
